@@ -64,7 +64,7 @@ def showfact(f):
     if f[0] == 'called': return 'called %s@bb%d' % (f[1].split('::')[-1], f[3])
     return str(f)
 if __name__ == '__main__':
-    prog = Program(sys.argv[1])
+    prog = Program(sys.argv[1], level=int(__import__("os").environ.get("VERIF_LEVEL","1")))
     adt = None if sys.argv[3] == '-' else sys.argv[3]
     tr = sys.argv[6] if len(sys.argv) > 6 else None
     fn = prog.fn(sys.argv[2], adt, sys.argv[4], tr)
